@@ -294,7 +294,8 @@ def cfgOf (j : J) : Cfg :=
       reindexOnReorder := (j.getBool? "f02").getD true,
       listCloneSealed := (j.getBool? "f17").getD true,
       detachOnRemove := (j.getBool? "f33").getD true,
-      insertCopiesOwn := (j.getBool? "f79").getD true }
+      insertCopiesOwn := (j.getBool? "f79").getD true,
+      notifyBulk := (j.getBool? "bulk").getD true }
 
 def outcomeToJ : Outcome → J
   | .ok => .str "ok"
